@@ -1175,9 +1175,37 @@ pub fn c10(rec: &mut Rec, rng: &mut Rng, thorough: bool) {
                 if sim.w.clients[i].sock.is_none() || sim.w.clients[i].refused {
                     continue;
                 }
-                match rng.below(7) {
+                match rng.below(8) {
                     0 | 1 => sim.send_next(rec, rng, i),
                     6 => sim.send_garbage(rec, rng, i),
+                    7 => {
+                        // a pipelining client, then several answers handed back in ONE enqueue_responses call
+                        for _ in 0..2 {
+                            sim.plan_request(rng, i);
+                        }
+                        sim.send_next(rec, rng, i);
+                        while !sim.plans[i].outq.is_empty() {
+                            sim.send_next(rec, rng, i);
+                        }
+                        for _ in 0..4 {
+                            sim.poll(rec);
+                        }
+                        if sim.w.held.len() >= 2 {
+                            let n = sim.w.held.len().min(4);
+                            let ks: Vec<usize> = (0..n).collect();
+                            let mut bodies = vec![];
+                            for k in &ks {
+                                let t = sim.w.held[*k].tag.clone();
+                                if let Some(ci) = sim.w.held[*k].client {
+                                    if ci < sim.plans.len() {
+                                        sim.plans[ci].answered.push(t.clone());
+                                    }
+                                }
+                                bodies.push(format!("{}:", t).into_bytes());
+                            }
+                            sim.w.respond_many(rec, ks, bodies);
+                        }
+                    }
                     2 => {
                         sim.poll(rec);
                     }
